@@ -118,8 +118,27 @@ def complex_state(pt, via_module=False):
     return s
 
 
+_LAYOUT = [0]
+
+
+def relayout(t):
+    """the same values in another memory layout a caller may legitimately hold: contiguous, column-major
+    storage, or a column slice of a wider array (rotating; values and shape are identical)"""
+    if not REUSE or t.dim() != 2:
+        return t
+    _LAYOUT[0] += 1
+    how = _LAYOUT[0] % 3
+    if how == 1:
+        return t.t().contiguous().t()
+    if how == 2:
+        wide = torch.zeros(t.shape[0], t.shape[1] + 2, dtype=t.dtype)
+        wide[:, :t.shape[1]] = t
+        return wide[:, :t.shape[1]]
+    return t
+
+
 def space(nv):
-    return torch.tensor([[(k >> (nv - 1 - s)) & 1 for s in range(nv)] for k in range(2 ** nv)], dtype=torch.double)
+    return relayout(torch.tensor([[(k >> (nv - 1 - s)) & 1 for s in range(nv)] for k in range(2 ** nv)], dtype=torch.double))
 
 
 # ---- purification RBM / density matrix -------------------------------------------------------
